@@ -61,8 +61,10 @@ class MemoryBlockPool {
       }
     }
 
-    // Release a MemoryBlock back to the pool.
+    // Release a MemoryBlock back to the pool. Any data left in the block is
+    // discarded, so the next user gets an empty block.
     void Release(MemoryBlock *block) {
+      block->Reset();
       m_free_blocks.push(block);
     }
 
